@@ -23,6 +23,14 @@ def main():
         n = k + offset
         demo = "%s/change%d_demo_test.go" % (out, k)
         diff = "%s/change%d.diff" % (out, k)
+        # idempotent + safe for two runners working through overlapping lists
+        dd = os.path.join(ROOT, "seeded", "%s-%d" % (pid, n))
+        if os.path.exists(dd + "/meta.json") and os.path.exists(diff) and open(dd + "/patch.diff").read() == open(diff).read():
+            print("%s-%d: already processed" % (pid, n)); continue
+        try:
+            os.mkdir("/tmp/pb-lock-%s-%d" % (pid, n))
+        except FileExistsError:
+            print("%s-%d: being processed by another runner" % (pid, n)); continue
         if not (os.path.exists(demo) and os.path.exists(diff)):
             print("%s-%d: missing files" % (pid, n)); continue
         src = open(demo).read()
